@@ -206,10 +206,20 @@ func (r *Run) CoveredPrefix(prefix string) int {
 // Sample records a concrete explored case (only the first few are kept)
 func (r *Run) Sample(v any) {
 	r.mu.Lock()
-	if len(r.samples) < r.maxSamples {
-		r.samples = append(r.samples, v)
+	defer r.mu.Unlock()
+	if len(r.samples) >= r.maxSamples {
+		return
 	}
-	r.mu.Unlock()
+	// evidence files must stay small: a sample is kept as rendered JSON, clipped
+	b, err := json.Marshal(v)
+	if err != nil {
+		b = []byte(fmt.Sprintf("%q", fmt.Sprintf("%+v", v)))
+	}
+	if len(b) > 4000 {
+		r.samples = append(r.samples, map[string]any{"clipped_json": string(b[:4000]) + "…"})
+		return
+	}
+	r.samples = append(r.samples, json.RawMessage(b))
 }
 
 // Set stores an extra coverage key
@@ -266,6 +276,9 @@ func (r *Run) Violations() int {
 func (r *Run) Violation(signature, caseID, what string, scenario any) {
 	r.mu.Lock()
 	defer r.mu.Unlock()
+	if len(what) > 3000 {
+		what = what[:3000] + "…"
+	}
 	if _, ok := r.known[signature]; ok {
 		r.knownSeen[signature]++
 		if r.knownSeen[signature] == 1 {
